@@ -6,6 +6,7 @@ import (
 	"go/token"
 	"go/types"
 	"regexp"
+	"sort"
 	"strings"
 
 	"golang.org/x/tools/go/ssa"
@@ -161,6 +162,7 @@ func runC07(a *A) {
 	a.Rule("ordtab/comparator", 4, func() { a.ruleOrderComparator() })
 	a.Rule("whomay/having-binding", 3, func() { a.ruleHavingBinding() })
 	a.Rule("flow/delivered-batch-fresh", 7, func() { a.ruleDeliveredBatchFresh() })
+	a.Rule("shape/whole-call-slice", 4, func() { a.ruleWholeCallSlice("rsql", "aggregator") })
 }
 
 func (a *A) ruleOrderComparator() {
@@ -468,4 +470,134 @@ func isMapOfString(t types.Type) bool {
 	}
 	m, ok := t.Underlying().(*types.Map)
 	return ok && isStringType(m.Elem())
+}
+
+// wholeCallReviewed: call edges into a function that cuts "first ( … last )" out of its argument,
+// where the caller passes text that is one whole call by construction. Confirmed by reading; one
+// reason per edge.
+var wholeCallReviewed = map[string]string{
+	"rsql.extractAggFieldWithExpression<-rsql.ParseAggregateTypeWithExpression":                                 "reached only after the item was found to have no operator outside its outermost call (containsOperatorsOutsideFunctions returned false)",
+	"aggregator.hasMultipleTopLevelArgs<-(*aggregator.EnhancedGroupAggregator).AddPostAggregationExpression":     "field.FullCall is the text of one call, cut out at its matching parenthesis by the extractor of aggregate calls",
+	"(*aggregator.EnhancedGroupAggregator).parseFunctionCall<-(*aggregator.EnhancedGroupAggregator).createParameterizedAggregator": "field.FullCall, as above",
+	"(*stream.Stream).parseFunctionArgs<-(*stream.analyticFieldEngine).applyCall":                            "AnalyticCall.BareCall is expr[nameStart : matchingParen+1] (rsql.extractAnalyticCalls)",
+	"(*stream.Stream).parseFunctionArgs<-(*stream.analyticFieldEngine).evaluateMultiColumn":                     "AnalyticField.Expression is Calls[0].BareCall for a field that is exactly one analytic call",
+}
+
+// ruleWholeCallSlice: a function that takes strings.Index(s,"(") and strings.LastIndex(s,")") of the
+// same text treats s as one call f(...). For `sum(v) * 2` or `round(x/3, 2) + mod(a, b)` that is wrong
+// (the slice is the first argument list, or two argument lists glued together), and both forms were
+// mis-evaluated. Every such function must prove the call spans the text — the LastIndex result is
+// compared with the result of a paren-matching helper — or every caller must: the call is dominated by
+// a whole-call predicate on the same value, or the edge is in the reviewed table.
+func (a *A) ruleWholeCallSlice(pkgs ...string) int {
+	inPkgs := map[*ssa.Package]bool{}
+	for _, p := range pkgs {
+		inPkgs[a.Pkg(p)] = true
+	}
+	n := 0
+	for _, fn := range a.ModFuncs {
+		if fn.Pkg == nil || !inPkgs[fn.Pkg] {
+			continue
+		}
+		var idx, last *ssa.Call
+		allInstrs(fn, func(in ssa.Instruction) {
+			c, ok := in.(*ssa.Call)
+			if !ok {
+				return
+			}
+			f := c.Call.StaticCallee()
+			if f == nil || f.Pkg == nil || f.Pkg.Pkg.Path() != "strings" || len(c.Call.Args) != 2 {
+				return
+			}
+			switch f.Name() {
+			case "Index":
+				if strings.Contains(constText(c.Call.Args[1]), "(") {
+					idx = c
+				}
+			case "LastIndex":
+				if constText(c.Call.Args[1]) == ")" {
+					last = c
+				}
+			}
+		})
+		if idx == nil || last == nil {
+			continue
+		}
+		n++
+		construct := fname(fn) + "#whole-call"
+		// (1) local proof: LastIndex result compared with a module helper (string, int) -> int
+		local := false
+		allInstrs(fn, func(in ssa.Instruction) {
+			bo, ok := in.(*ssa.BinOp)
+			if !ok || bo.Op != token.EQL && bo.Op != token.NEQ {
+				return
+			}
+			for _, pair := range [][2]ssa.Value{{bo.X, bo.Y}, {bo.Y, bo.X}} {
+				c, ok := pair[0].(*ssa.Call)
+				if !ok || pair[1] != ssa.Value(last) {
+					continue
+				}
+				if f := c.Call.StaticCallee(); f != nil && a.fnInModule(f) && f.Signature.Params().Len() == 2 && isIntType(f.Signature.Results().At(0).Type()) {
+					local = true
+				}
+			}
+		})
+		if local {
+			a.Ok(construct, last.Pos(), "the closing parenthesis found by LastIndex is required to match the first opening one")
+			continue
+		}
+		// (2) callers
+		node := a.CG().Nodes[fn]
+		var bad []string
+		okEdges := 0
+		if node != nil {
+			for _, e := range node.In {
+				if e.Caller == nil || !a.fnInModule(e.Caller.Func) || e.Site == nil {
+					continue
+				}
+				key := fname(fn) + "<-" + fname(e.Caller.Func)
+				if _, ok := wholeCallReviewed[key]; ok {
+					okEdges++
+					continue
+				}
+				// which argument carries the text: the one of string type that feeds Index
+				guarded := false
+				for _, arg := range e.Site.Common().Args {
+					if !isStringType(arg.Type()) {
+						continue
+					}
+					if guardedByValue(e.Site.Block(), func(v ssa.Value) bool {
+						c, ok := v.(*ssa.Call)
+						if !ok || len(c.Call.Args) != 1 || c.Call.Args[0] != arg {
+							return false
+						}
+						f := c.Call.StaticCallee()
+						return f != nil && a.fnInModule(f)
+					}, true) {
+						guarded = true
+					}
+				}
+				if guarded {
+					okEdges++
+				} else {
+					bad = append(bad, fname(e.Caller.Func))
+				}
+			}
+		}
+		sort.Strings(bad)
+		a.Check(len(bad) == 0, construct, last.Pos(),
+			fmt.Sprintf("all %d callers pass one whole call (guarded by a whole-call predicate or reviewed)", okEdges),
+			"cuts first '(' … last ')' out of its argument without checking that they match, and the caller(s) "+strings.Join(bad, ", ")+" may pass text that continues after the call (`f(x) * 2`, `f(a, b) + g(c, d)`): the cut is not the argument list")
+	}
+	return n
+}
+
+func constText(v ssa.Value) string {
+	if k, ok := v.(*ssa.Const); ok && k.Value != nil && k.Value.Kind() == constant.String {
+		return constant.StringVal(k.Value)
+	}
+	if bo, ok := v.(*ssa.BinOp); ok && bo.Op == token.ADD {
+		return constText(bo.X) + constText(bo.Y)
+	}
+	return ""
 }
